@@ -95,6 +95,8 @@ class Func:
 
     @property
     def self_name(self):
+        if getattr(self, "_self_override", None) is not None:
+            return self._self_override  # a view of a helper in which this parameter receives the object (proto.site_func)
         if self.cls is not None and self.role in ("method", "fget", "fset", "classmethod"):
             return self.posparams[0] if self.posparams else None
         return None
